@@ -22,6 +22,7 @@ def OrigStmt (I : Interp Nat) (C : CalcOps Nat) (t : Table) : Prop :=
     (_ : (t.map (·.repr)).Nodup)
     (_ : ∀ n ∈ ["-", "ln", "sqrt", "sin", "cos", "sinh", "cosh", "tanh"],
       ∃ u, findUnaryOp t (String.toList n) = .ok u)
+    (_ : BopAssoc I t)
     (d : DeepEx Nat) (_ : C10.Named d.vars d) (_ : d.vars.Nodup)
     (_ : sortBy strLe d.vars = d.vars) (_ : d.Assoc I) (_ : Shortcut.Folded d)
     (_ : Ruled t d)
@@ -82,7 +83,7 @@ theorem orig_false_vars : ¬ OrigStmt NI NC tbl := by
       rw [hp] at h1
       rw [hw] at h2
       simp only [] at h1 h2
-      have := (h AA LL hnames hfn d1 d1_named (by simp [d1, DeepEx.vars, xs, ys]) (by rfl) d1_assoc
+      have := (h AA LL hnames hfn hbop d1 d1_named (by simp [d1, DeepEx.vars, xs, ys]) (by rfl) d1_assoc
         d1_folded d1_ruled 0 xs rfl ρ0 12 d' hp w hw h2).1
       rw [this] at h1
       revert h1
@@ -143,6 +144,11 @@ theorem hfn2 : ∀ n ∈ ["-", "ln", "sqrt", "sin", "cos", "sinh", "cosh", "tanh
   simp only [List.mem_cons, List.not_mem_nil, or_false] at hn
   rcases hn with rfl | rfl | rfl | rfl | rfl | rfl | rfl | rfl <;> exact ⟨_, rfl⟩
 
+theorem hbop2 : BopAssoc NI tbl2 := by
+  intro n hn o ho
+  simp only [List.mem_cons, List.not_mem_nil, or_false] at hn
+  rcases hn with rfl | rfl | rfl | rfl | rfl | rfl | rfl | rfl <;> cases ho
+
 /-- `exp(x)`, where index 12 is the entry `exp` of `tbl2` (not flagged unary) -/
 def d2 : DeepEx Nat := .mk [.var 0 xs] [] [12] [xs]
 
@@ -186,7 +192,7 @@ theorem orig_false_unary : ¬ OrigStmt NI NC tbl2 := by
     | ok w =>
       rw [hw] at h2
       simp only [Bool.and_eq_true, beq_iff_eq] at h2
-      have := (h AA2 LL2 hnames2 hfn2 d2 d2_named (by simp [d2, DeepEx.vars]) (by rfl) d2_assoc
+      have := (h AA2 LL2 hnames2 hfn2 hbop2 d2 d2_named (by simp [d2, DeepEx.vars]) (by rfl) d2_assoc
         d2_folded d2_ruled 0 xs rfl ρ0 12 d' hp w hw h2.1).2.2.2.2.1
       have h3 := d2_val
       rw [this, h2.2] at h3
